@@ -335,7 +335,7 @@ func f4(w *World, r *Report) {
 				}
 				return ""
 			}
-			reExec := `\.txExecutor\.ExecuteSync\(.*\)$`
+			reExec := `^[A-Za-z0-9_.]*\.txExecutor\.ExecuteSync\(.*\)$`
 			run := func(f atom) ([]pathEnd, bool) {
 				fe := w.newFactEval(nil, f)
 				saved := w.branchMarkers
